@@ -72,3 +72,31 @@ Proof.
   split; [intros u; vm_compute; destruct u as [|[|u]]; split; reflexivity|].
   split; [reflexivity|]. split; [vm_compute; reflexivity|exists 7, 0; vm_compute; repeat split; reflexivity].
 Qed.
+
+(* ---- the zero-copy ATOMIC Uni channel (Alloc/ZcSoloA.v, Chan/ChanZInstA.v): a lock-free ring cannot promise progress while another thread
+   is in the middle of an operation on it, so the hypothesis is "calm": in both rings every thread is idle or stands before the first access
+   of a publication - which is exactly where a SUSPENDED send_with_async stands (slot allocated, id not yet published: it holds a pool slot
+   and nothing in either ring).  In every state of every channel run in which every thread is idle in both rings or is such a suspended
+   producer, an idle thread's consume completes in <= 4 of its own steps, its send in <= 8, the release of a handle it holds in <= 4 - each
+   with its response appended, every other thread (every suspended producer in particular) left exactly where it was; and a suspended
+   producer that is resumed under the same hypothesis finishes in 4 own steps. ---- *)
+From RM Require Import RingInv RingProps ZcSoloA ChanZInstA.
+Theorem C20_zero_copy_atomic_suspended_send_blocks_nobody :
+  forall N, 0 < N -> forall M k wr cevs t,
+  let s := q _ (zc_run N M k wr cevs) in
+  (forall u, (thr (ua _ s) u = Idle /\ thr (ub _ s) u = Idle) \/ suspended s u) -> uthr _ s t = UIdle ->
+  calm_progress N s t /\
+  (exists n r, (n <= 4)%nat /\ completes N s (astart s t OpCons) n t (Some r) /\ matches OpCons r) /\
+  (forall v, exists n r, (n <= 8)%nat /\ completes N s (astart s t (OpPub v)) n t (Some r) /\ matches (OpPub v) r) /\
+  (forall id, uheld _ s t = Some id -> exists n, (n <= 4)%nat /\ completes N s (arelease s t) n t None).
+Proof. exact zca_idle_or_suspended_blocks_nobody. Qed.
+Print Assumptions C20_zero_copy_atomic_suspended_send_blocks_nobody.
+
+Theorem C20_zero_copy_atomic_suspended_send_resumes :
+  forall N, 0 < N -> forall M k wr cevs t v id,
+  let s := q _ (zc_run N M k wr cevs) in
+  calm (ua _ s) -> calm (ub _ s) -> uthr _ s t = UEnqB v id -> thr (ub _ s) t = P0 id -> thr (ua _ s) t = Idle ->
+  tail (ub _ s) - head (ub _ s) < N ->
+  completes N s s 4 t (Some (ROk v (tail (ub _ s) - head (ub _ s) + 1))).
+Proof. exact zca_suspended_send_resumes. Qed.
+Print Assumptions C20_zero_copy_atomic_suspended_send_resumes.
